@@ -4,9 +4,11 @@
    (`msorted`: the canonical sorted representation of HashMap<String, Template>), every batch
    (any length, duplicates allowed, any mixture of sources that parse and sources that do not),
    every configuration (fallback prefixes, registered filters/tests/functions, with or without
-   the D10/D13 repairs), every history of add / failing add / autoescape_on calls. *)
+   the D10/D13 repairs), every history of add_raw_templates / add_template_file(s) / failing add /
+   autoescape_on calls. *)
 From Coq Require Import List NArith Bool.
-From TeraV Require Import Model.Registry Spec.Graph Proofs.RegistryProofs.
+From TeraV Require Import Model.Registry Model.RegistryGlob Spec.Graph Proofs.RegistryProofs
+  Proofs.RegistryGlobProofs.
 Import ListNotations.
 
 (* the undo list: for every map m and batch b, inserting b while recording the previous entries
@@ -39,8 +41,8 @@ Theorem C10_listing_describes_set : forall m : smap,
   msorted m -> override [] (listing m) = m.
 Proof. intros m Hm. exact (override_listing m [] Hm). Qed.
 
-(* invariant over arbitrary histories (successful adds, failing adds of every kind,
-   autoescape_on): every derived field is `finalize` of the current set and configuration *)
+(* invariant over arbitrary histories (successful raw and file adds, failing adds of every kind
+   -- including unreadable files --, autoescape_on): every derived field is `finalize` of the current set and configuration *)
 Theorem C10_reachable_inv : forall ev s, reachable ev s -> canonical ev s.
 Proof. exact reachable_inv. Qed.
 
@@ -53,7 +55,112 @@ Theorem C10_order_and_grouping_irrelevant : forall ev sufs1 sufs2 h1 h2,
   st_sufs s1 = st_sufs s2 -> sources (st_tpls s1) = sources (st_tpls s2) -> s1 = s2.
 Proof. exact order_and_grouping_irrelevant. Qed.
 
+(* ---- the file entry points: add_template_file / add_template_files (private add_file).
+   Quantification: every list of (path, what reading the path yields, optional name) -- any
+   length, any mixture of non-UTF-8 paths, files that cannot be opened, files that are not
+   UTF-8, sources that do not parse and sources that do, the same key any number of times, with
+   or without explicit names. *)
+
+(* the loop over files with its undo list and early exit is the raw loop over `files_batch fs`
+   (key and source of every entry up to and including the first that fails); the two calls
+   leave the same state and differ only in the kind of a read/parse error *)
+Theorem C10_add_files_as_batch : forall ev s fs,
+  add_files ev s fs =
+  (match files_first_err fs with
+   | Some e => Err e
+   | None => fst (add_batch ev s (files_batch fs))
+   end,
+   snd (add_batch ev s (files_batch fs))).
+Proof. exact add_files_as_batch. Qed.
+
+(* a failing file call -- whichever entry fails, for whichever reason, or finalize afterwards --
+   leaves the instance exactly as it was *)
+Theorem C10_add_files_err_is_identity : forall ev s fs e s',
+  msorted (st_tpls s) -> add_files ev s fs = (Err e, s') -> s' = s.
+Proof. exact add_files_err_is_identity. Qed.
+
+(* a successful file call: every entry was read and parsed, the set is `override old batch`, and
+   the state is the one a FRESH instance reaches when given that set in one raw batch or in one
+   list of files, whatever their order, repetitions and naming *)
+Theorem C10_add_files_ok_equals_fresh : forall ev s fs s',
+  msorted (st_tpls s) -> add_files ev s fs = (Ok tt, s') ->
+  files_first_err fs = None /\
+  sources (st_tpls s') = override (sources (st_tpls s)) (files_batch fs) /\
+  (forall b' m' log',
+     insert_all [] b' [] = (true, m', log') -> sources m' = sources (st_tpls s') ->
+     add_batch ev (init (st_sufs s)) b' = (Ok tt, s')) /\
+  (forall fs' m' log',
+     insert_files [] fs' [] = (None, m', log') -> sources m' = sources (st_tpls s') ->
+     add_files ev (init (st_sufs s)) fs' = (Ok tt, s')).
+Proof. exact add_files_ok_equals_fresh. Qed.
+
+(* C10_reachable_inv and C10_order_and_grouping_irrelevant above are stated over `reachable` /
+   `run`, whose calls are all three kinds (CAdd, CAuto, CAddFiles): the next statement makes
+   that explicit for a history that interleaves them *)
+Theorem C10_file_calls_are_steps : forall ev s fs,
+  reachable ev s -> reachable ev (snd (add_files ev s fs)) /\ canonical ev (snd (add_files ev s fs)).
+Proof. exact add_files_reachable. Qed.
+
+(* ---- the glob entry points (cargo feature glob_fs): load_from_glob / full_reload, on an
+   instance that remembers its glob and which templates came from it (Model/RegistryGlob.v).
+   Quantification: every instance whose template map is well formed, every set of from_glob
+   marks, every remembered glob, every answer of the directory walk (invalid pattern; any list
+   of matched files, each unreadable / not UTF-8 / not parsing / fine, in any order). *)
+
+(* a failing call of ANY kind (raw batch, files, glob load, reload -- invalid pattern, one bad
+   file among good ones, a set that does not finalize, reload without a glob) leaves templates
+   with all derived fields, component table, suffixes, from_glob marks and the remembered glob
+   exactly as they were *)
+Theorem C10_glob_err_is_identity : forall ev g c e g',
+  msorted (st_tpls (gs_st g)) -> gstep ev g c = (Err e, g') -> g' = g.
+Proof. exact gstep_err_is_identity. Qed.
+
+(* a successful load: every matched file was read and parsed; the templates of the previous glob
+   are gone, the manual ones kept, the matched ones added (override); the glob is remembered and
+   exactly the matched names are marked; and the instance is the one a FRESH instance reaches
+   given that set in one raw batch, or through one glob load that matches files describing it *)
+Theorem C10_load_glob_ok_equals_fresh : forall ev g pat fs g',
+  msorted (st_tpls (gs_st g)) ->
+  load_glob ev g pat (GFiles fs) = (Ok tt, g') ->
+  files_first_err fs = None /\
+  gs_glob g' = Some pat /\ gs_globbed g' = glob_keys fs /\
+  sources (st_tpls (gs_st g')) =
+    override (sources (drop_globbed (gs_globbed g) (st_tpls (gs_st g)))) (files_batch fs) /\
+  (forall b' m' log',
+     insert_all [] b' [] = (true, m', log') -> sources m' = sources (st_tpls (gs_st g')) ->
+     add_batch ev (init (st_sufs (gs_st g))) b' = (Ok tt, gs_st g')) /\
+  (forall pat' fs' m' mk',
+     glob_insert [] fs' false [] = (false, m', mk') -> sources m' = sources (st_tpls (gs_st g')) ->
+     load_glob ev (ginit (st_sufs (gs_st g))) pat' (GFiles fs') =
+     (Ok tt, {| gs_st := gs_st g'; gs_globbed := glob_keys fs'; gs_glob := Some pat' |})).
+Proof. exact load_glob_ok_equals_fresh. Qed.
+
+(* the invariant and history-independence over histories of ALL call kinds *)
+Theorem C10_greachable_inv : forall ev g, greachable ev g -> canonical ev (gs_st g).
+Proof. exact greachable_inv. Qed.
+
+Theorem C10_gorder_and_grouping_irrelevant : forall ev sufs1 sufs2 h1 h2,
+  let s1 := gs_st (snd (grun ev (ginit sufs1) h1)) in
+  let s2 := gs_st (snd (grun ev (ginit sufs2) h2)) in
+  st_sufs s1 = st_sufs s2 -> sources (st_tpls s1) = sources (st_tpls s2) -> s1 = s2.
+Proof. exact gorder_and_grouping_irrelevant. Qed.
+
+(* on histories without glob calls the instance with a glob is the plain instance *)
+Theorem C10_grun_without_glob : forall ev h g,
+  fst (grun ev g (map GCall h)) = fst (run ev (gs_st g) h) /\
+  gs_st (snd (grun ev g (map GCall h))) = snd (run ev (gs_st g) h).
+Proof. exact grun_lift. Qed.
+
+Print Assumptions C10_glob_err_is_identity.
+Print Assumptions C10_load_glob_ok_equals_fresh.
+Print Assumptions C10_greachable_inv.
+Print Assumptions C10_gorder_and_grouping_irrelevant.
+Print Assumptions C10_grun_without_glob.
 Print Assumptions C10_undo_restores.
+Print Assumptions C10_add_files_as_batch.
+Print Assumptions C10_add_files_err_is_identity.
+Print Assumptions C10_add_files_ok_equals_fresh.
+Print Assumptions C10_file_calls_are_steps.
 Print Assumptions C10_add_err_is_identity.
 Print Assumptions C10_add_ok_equals_fresh.
 Print Assumptions C10_listing_describes_set.
@@ -82,4 +189,56 @@ Example history_runs :
   render 50 [] s nB = RText [3%N; 7%N; 4%N] /\
   option_map e_auto (mfind nA (st_tpls s)) = Some true /\
   s = snd (add_batch ev0 (init [[97%N]]) [(nB, Some (t_child nA)); (nA, Some (t_plain 3%N))]).
+Proof. vm_compute. repeat split. Qed.
+
+(* ---- non-vacuity for the file form: explicit name and path-as-name, the same key twice in one
+   batch, an unreadable file and a syntax error in the middle of a batch, a batch whose last file
+   does not finalize; mixed with raw calls *)
+Definition fe (p : name) (r : fread) (n : option name) : fentry :=
+  {| fe_path := p; fe_read := r; fe_name := n |}.
+Definition pX : name := [47%N; 120%N].   (* "/x": a path that differs from every name *)
+
+Example file_history_runs :
+  let h := [CAddFiles [fe nA (FRead (Some (t_plain 1%N))) None];                 (* path as name *)
+            CAddFiles [fe pX (FRead (Some (t_plain 5%N))) (Some nA);             (* replaces a ... *)
+                       fe pX FNoRead (Some nB)];                                 (* ... not UTF-8: all undone *)
+            CAddFiles [fe pX (FRead (Some (t_child nA))) (Some nB);
+                       fe pX (FRead None) (Some nA)];                            (* syntax error: undone *)
+            CAddFiles [fe pX (FRead (Some (t_plain 5%N))) (Some nA);
+                       fe nB (FRead (Some (t_child [99%N]))) None];              (* missing parent: undone *)
+            CAdd [(nB, Some (t_child nA))];
+            CAddFiles [fe pX (FRead (Some (t_plain 5%N))) (Some nA);             (* same key twice *)
+                       fe nA (FRead (Some (t_plain 3%N))) None];
+            CAddFiles [fe pX FBadPath None]; CAddFiles [fe pX FNoOpen (Some nA)]] in
+  let '(rs, s) := run ev0 (init []) h in
+  rs = [Ok tt; Err EkMsg; Err EkSyntax; Err EkMissingParent; Ok tt; Ok tt; Err EkMsg; Err EkMsg] /\
+  render 50 [] s nB = RText [3%N; 7%N; 4%N] /\
+  s = snd (add_files ev0 (init []) [fe nB (FRead (Some (t_child nA))) None;
+                                    fe pX (FRead (Some (t_plain 3%N))) (Some nA)]) /\
+  s = snd (add_batch ev0 (init []) [(nB, Some (t_child nA)); (nA, Some (t_plain 3%N))]).
+Proof. vm_compute. repeat split. Qed.
+
+(* ---- non-vacuity for the glob form: a manual template and a glob that brings its child; a
+   reload after the child's file is gone and another appeared; a reload with one bad file among
+   good ones (everything restored, also the marks: the next reload still drops the old ones);
+   a manual replacement of a glob template survives the next reload only if the glob no longer
+   matches that name; reload without a glob *)
+Definition gf (n : name) (r : fread) : fentry := fe ([47%N] ++ n) r (Some n).
+Definition nC : name := [99%N].
+Definition pat1 : name := [42%N].
+
+Example glob_history_runs :
+  let h := [GReload (GFiles []);                                                    (* no glob yet *)
+            GCall (CAdd [(nA, Some (t_plain 1%N))]);
+            GLoad pat1 (GFiles [gf nB (FRead (Some (t_child nA)))]);
+            GReload (GFiles [gf nC (FRead (Some (t_child nA))); gf nB FNoRead]);     (* bad file: restored *)
+            GReload (GFiles [gf nC (FRead (Some (t_child nA)))]);                    (* b dropped, c added *)
+            GCall (CAdd [(nC, Some (t_child nB))]);                                  (* missing parent b *)
+            GLoad pat1 GInvalid;
+            GCall (CAddFiles [fe nC (FRead (Some (t_plain 5%N))) None]);             (* c becomes manual *)
+            GReload (GFiles [gf nA (FRead (Some (t_plain 3%N)))])] in               (* c stays, a replaced *)
+  let '(rs, g) := grun ev0 (ginit []) h in
+  rs = [Err EkMsg; Ok tt; Ok tt; Err EkMsg; Ok tt; Err EkMissingParent; Err EkMsg; Ok tt; Ok tt] /\
+  mkeys (st_tpls (gs_st g)) = [nA; nC] /\ gs_globbed g = [nA] /\ gs_glob g = Some pat1 /\
+  gs_st g = snd (add_batch ev0 (init []) [(nC, Some (t_plain 5%N)); (nA, Some (t_plain 3%N))]).
 Proof. vm_compute. repeat split. Qed.
